@@ -426,6 +426,111 @@ func signOpen(text string, sids, vids []string) (string, string) {
 	return "", "not-opened"
 }
 
+// keyBinding mutates every byte of an encoded verifier key and signer key: NewVerifier/NewSigner must
+// refuse, or return an object whose name and hash still satisfy hash == SHA-256(name "\n" key)[:4].
+func keyBinding(r *fw.Run) {
+	l := fw.NewLocal()
+	defer r.Merge(l)
+	sk, vk, _ := note.GenerateKey(&detRand{seed: "binding"}, "bind.example")
+	refHash := func(name string, key []byte) uint32 {
+		h := sha256.New()
+		h.Write([]byte(name))
+		h.Write([]byte("\n"))
+		h.Write(key)
+		return binary.BigEndian.Uint32(h.Sum(nil))
+	}
+	check := func(kind, enc string) {
+		l.States++
+		l.Execs++
+		var name string
+		var hash uint32
+		var err error
+		if kind == "verifier" {
+			var v note.Verifier
+			if v, err = note.NewVerifier(enc); err == nil {
+				name, hash = v.Name(), v.KeyHash()
+			}
+		} else {
+			var s note.Signer
+			if s, err = note.NewSigner(enc); err == nil {
+				name, hash = s.Name(), s.KeyHash()
+			}
+		}
+		if err != nil {
+			l.Outcomes["key:refused"]++
+			return
+		}
+		l.Outcomes["key:accepted"]++
+		l.Nontrivial++
+		// recompute the binding from the encoded string
+		rest := enc
+		if kind == "signer" {
+			rest = strings.TrimPrefix(rest, "PRIVATE+KEY+")
+		}
+		parts := strings.SplitN(rest, "+", 3)
+		if len(parts) != 3 {
+			r.Violation("key:"+kind+":"+strconv.QuoteToASCII(enc), fmt.Sprintf("New%s accepted the malformed key %q", kind, enc), caseT{Kind: "key", Text: strconv.QuoteToASCII(enc)})
+			return
+		}
+		key, derr := base64.StdEncoding.DecodeString(parts[2])
+		pub := key
+		if kind == "signer" && derr == nil && len(key) == 33 {
+			pub = append([]byte{key[0]}, ed25519.NewKeyFromSeed(key[1:])[32:]...)
+		}
+		// the hash field is compared as a number (hex digits of either case denote the same hash)
+		h64, herr := strconv.ParseUint(parts[1], 16, 32)
+		if derr != nil || herr != nil || len(parts[1]) != 8 || parts[0] != name || uint32(h64) != hash || refHash(name, pub) != hash {
+			r.Violation("key:"+kind+":"+strconv.QuoteToASCII(enc), fmt.Sprintf("New%s(%q) accepted a key whose hash does not bind its name and key (name %q hash %08x)", kind, enc, name, hash), caseT{Kind: "key", Text: strconv.QuoteToASCII(enc)})
+		}
+	}
+	for _, kv := range [][2]string{{"verifier", vk}, {"signer", sk}} {
+		kind, enc := kv[0], kv[1]
+		check(kind, enc)
+		// the hash field replaced by plausible but wrong derivations from the same name and key material
+		{
+			pre := ""
+			rest := enc
+			if kind == "signer" {
+				pre, rest = "PRIVATE+KEY+", strings.TrimPrefix(enc, "PRIVATE+KEY+")
+			}
+			parts := strings.SplitN(rest, "+", 3)
+			raw, _ := base64.StdEncoding.DecodeString(parts[2])
+			vparts := strings.SplitN(vk, "+", 3)
+			pub, _ := base64.StdEncoding.DecodeString(vparts[2])
+			sum := func(bs ...[]byte) string {
+				h := sha256.New()
+				for _, b := range bs {
+					h.Write(b)
+				}
+				return fmt.Sprintf("%08x", binary.BigEndian.Uint32(h.Sum(nil)))
+			}
+			n, nl := []byte(parts[0]), []byte("\n")
+			for _, alt := range []string{
+				sum(n, nl, raw), sum(n, nl, raw[1:]), sum(n, nl, pub[1:]), sum(n, raw), sum(n, pub), sum(raw), sum(pub), sum(n),
+				sum(n, nl, []byte(parts[2])), sum(n, nl, []byte(vparts[2])), sum(n, nl), "00000000", "ffffffff",
+			} {
+				if alt == vparts[1] {
+					continue
+				}
+				check(kind, pre+parts[0]+"+"+alt+"+"+parts[2])
+			}
+		}
+		for i := 0; i < len(enc); i++ {
+			for _, c := range []byte{enc[i] ^ 1, enc[i] ^ 0x20, '+', ' ', 'A', '0'} {
+				if c == enc[i] {
+					continue
+				}
+				b := []byte(enc)
+				b[i] = c
+				check(kind, string(b))
+			}
+			check(kind, enc[:i]+enc[i+1:])
+			check(kind, enc[:i]+"x"+enc[i:])
+		}
+	}
+	r.Sample(caseT{Kind: "key", Text: strconv.QuoteToASCII(vk)})
+}
+
 var textAlpha = []string{"a", "\n", "— ", " ", "é", "\x01", "\xff", "\ufffd"}
 
 func Run(r *fw.Run) {
@@ -545,6 +650,9 @@ func Run(r *fw.Run) {
 		}
 		r.Merge(l)
 	})
+
+	// (b2) key strings: the key hash binds name and key; altered key strings are refused
+	keyBinding(r)
 
 	// (c) mutations of signed messages
 	type signed struct {
